@@ -12684,11 +12684,13 @@ static int cgi_next_posit(char *label, int index, char *name)
                            label, index + 1, b->user_data[index].id);
             }
         }
-        else if (0 == strcmp (label, "IndexArray_t")) {
+        else if (0 == strcmp (label, "IndexArray_t") ||
+                 /* a PointRange / ElementRange is stored as IndexRange_t */
+                 0 == strcmp (label, "IndexRange_t")) {
             if (b->ptset &&
                 (index == 1 || 0 == strcmp (b->ptset->name, name))) {
                 return cgi_add_posit((void *)b->ptset,
-                           label, 1, b->ptset->id);
+                           "IndexArray_t", 1, b->ptset->id);
             }
         }
         else
